@@ -404,6 +404,58 @@ def c_unique(c, ws, sg):
     c.check("unique == pairwise != over all operands", And(n.width == 1, n.term == t))
 
 
+def uniq_list_cases(tier, seed):
+    shapes = ["l", "sl", "ls", "ll", "sls", "lsl", "ssl", "lls"]
+    out = []
+    for sh in shapes:
+        for sz in ((0, 1), (2, 1), (1, 3), (2, 2)):
+            for sgn in (False, True):
+                out.append((sh, list(sz), sgn))
+    return out
+
+
+@contract("constraint_unique.build.lists", ["C01", "C04", "C02"],
+          ["vsc.model.constraint_unique_model.ConstraintUniqueModel.build"],      # helpers it calls are executed, not anchored
+          uniq_list_cases, replay="none",
+          note="unique over scalars (s) and lists (l) in every order up to three operands, lists of 0..3 elements (first/second "
+               "list sizes given), scalars 5 bits wide and list elements 8: compared with R-EXPR - pairwise != over all scalars and "
+               "all elements of all lists, whatever the order in which they are named")
+def c_unique_lists(c, shape, sizes, sgn):
+    from vsc.model.constraint_unique_model import ConstraintUniqueModel
+    from vsc.model.field_array_model import FieldArrayModel
+    from vsc.model.field_composite_model import FieldCompositeModel
+    from vsc.model.field_scalar_model import FieldScalarModel
+    from vsc.model.expr_fieldref_model import ExprFieldRefModel
+    bt = GhostBoolector()
+    root = FieldCompositeModel("o", True)
+    ops, flat = [], []
+    nl = 0
+    for i, k in enumerate(shape):
+        if k == "s":
+            f = root.add_field(FieldScalarModel("s%d" % i, 5, sgn, True))
+            ops.append(ExprFieldRefModel(f))
+            flat.append((f, 5))
+        else:
+            class T:
+                width = 8
+            a = root.add_field(FieldArrayModel("l%d" % i, T(), True, None, 8, sgn, True, False))
+            for _ in range(sizes[nl % len(sizes)]):
+                a.add_field()
+            nl += 1
+            ops.append(ExprFieldRefModel(a))
+            flat.extend((f, 8) for f in a.field_l)
+    root.set_used_rand(True, 0)
+    for f, _w in flat:
+        f.build(bt)
+    n = ConstraintUniqueModel(ops).build(bt, False)
+    want = z3.BitVecVal(1, 1)
+    for i in range(len(flat)):
+        for j in range(i + 1, len(flat)):
+            want = want & ref_bin("Ne", flat[i][0].var.term, flat[j][0].var.term, sgn, max(flat[i][1], flat[j][1]))
+    c.check("unique == pairwise != over every scalar and every element of every list named, in any order",
+            And(n.width == 1, n.term == want), info="%d values" % len(flat))
+
+
 @contract("constraint_soft.build+override.build", ["C01", "C05"],
           ["vsc.model.constraint_soft_model.ConstraintSoftModel.build", "vsc.model.constraint_override_model.ConstraintOverrideModel.build"],
           lambda tier, seed: [()], replay="none")
